@@ -9,7 +9,7 @@ from ..core import Failure
 from ..model import MP, first_diff
 
 ID = "C09"
-BUDGET = {"quick": 1200, "thorough": 4000}
+BUDGET = {"quick": 1200, "thorough": 12000}
 TECHNIQUE = ("Hypothesis-generated (polynomial array, valid shape/axis/index/section arguments) per function vs the "
              "same numpy function applied to an object array of exact model polynomials")
 LEVEL_TEXT = ("For each of ~35 shape/join/split/selection/creation/indexing operations, generated valid arguments "
